@@ -129,21 +129,16 @@ func (t *Queue[T]) Shutdown(optionalShutdownFlags ...ShutdownFlag) {
 	t.ctxCancel()
 
 	t.heapMutex.Lock()
-	switch queuedElementsCount := len(t.heap); queuedElementsCount {
-	// if the queue is empty ...
-	case 0:
-		// ... stop waiting for new elements
-		t.waitCond.Broadcast()
-
-	// if the queue is not empty ...
-	default:
-		// ... empty it if the corresponding flag was set
-		if t.shutdownFlags.HasBits(CancelPendingElements) {
-			for range queuedElementsCount {
-				heap.Pop(&t.heap)
-			}
+	// empty the queue if the corresponding flag was set
+	if t.shutdownFlags.HasBits(CancelPendingElements) {
+		for range len(t.heap) {
+			heap.Pop(&t.heap)
 		}
 	}
+
+	// stop waiting for new elements: wake every waiting Poll (also when elements are left, there can be more
+	// waiters than elements, e.g. a waiter that was signaled for an element another poller has taken meanwhile)
+	t.waitCond.Broadcast()
 	t.heapMutex.Unlock()
 }
 
